@@ -311,25 +311,27 @@ def _pure_guard(alt):
 
 
 def _kernel_elem(t):
-    """element type decoded by the inlined decode_vec_with_len (from its item path)"""
+    """element type decoded by the inlined decode_vec_with_len (from its item path = the arm of the
+    TYPE_INFO dispatch taken for non-primitive elements)"""
     for x in sym.walk(t):
-        if x[0] == 'HELPER' and x[1] == 'decode_vec_from_items':
-            for y in sym.walk(x[2]):
-                if y[0] == 'dec' and y[3] == 'decode':
-                    return y[1]
+        if x[0] == 'alt' and isinstance(strip(x[1]), tuple) and strip(x[1])[0] == 'const' and strip(x[1])[1].endswith('TYPE_INFO'):
+            for d, arm in x[2]:
+                if isinstance(d, tuple) and d[1] == 'Unknown':
+                    for y in sym.walk(arm):
+                        if y[0] == 'dec' and y[3] == 'decode':
+                            return y[1]
     return None
 
 
 def _kernel_len(t, facts):
     """the `len` argument the kernel was inlined with, recovered from its chunk loop condition"""
     for x in sym.walk(t):
-        if x[0] == 'HELPER' and x[1] == 'decode_vec_chunked':
-            for y in sym.walk(x[2]):
+        if x[0] == 'star' and strip(x[1]) == ('loop',):
+            for y in items(x[2]):
                 if y[0] == 'alt' and isinstance(y[1], tuple) and y[1][0] == 'if':
                     c = strip(y[1][1])
-                    if isinstance(c, tuple) and c[0] == 'bin' and c[1] == 'Gt':
-                        v = strip(c[2])
-                        if isinstance(v, tuple) and v[0] == 'mutvar':
-                            return sym.vstr(v[3])
-                        return sym.vstr(v)
+                    if isinstance(c, tuple) and c[0] == 'bin' and c[1] in ('Gt', 'Ne', 'Lt'):
+                        for side, other in ((strip(c[2]), strip(c[3])), (strip(c[3]), strip(c[2]))):
+                            if isinstance(side, tuple) and side[0] == 'mutvar' and isinstance(other, tuple) and other[0] == 'lit' and other[1] == 0:
+                                return sym.vstr(side[3])
     return None
